@@ -333,8 +333,10 @@ def guard_exact(ctx: Ctx):
 
     res = ctx.res
     n = 0
+    from ..inline import with_inlined
+
     for qname in NORMALISERS:
-        f = ctx.repo.func(qname)
+        f = with_inlined(ctx.repo, ctx.repo.func(qname))  # the column scaling may live in a private helper
         stmts = [st for st in ast.walk(f.node) if isinstance(st, ast.stmt) and not isinstance(st, (ast.If, ast.For, ast.While, ast.With, ast.Try, ast.FunctionDef))]
         # names bound to column norms
         norm_names = set()
@@ -355,6 +357,8 @@ def guard_exact(ctx: Ctx):
                     continue
                 if isinstance(den, ast.Call) and (call_name(den) or "") == "where" and len(den.args) == 3:
                     cond, a, b = den.args
+                    if isinstance(cond, ast.Name):
+                        cond = _resolve_at(cond, st, f.node, depth=1)  # is_zero = norms == 0
                     sa, sb = _strip_layout(a), _strip_layout(b)
                     scale = sb if isinstance(sb, ast.Name) and sb.id in norm_names else (sa if isinstance(sa, ast.Name) and sa.id in norm_names else None)
                     if scale is None:
